@@ -66,7 +66,7 @@ def run_one(p):
 
 
 def execute(chunk):
-    drv = core.Driver()
+    drv = core.Driver('C03')
     out = []
     try:
         for p in chunk['cases']:
